@@ -27,6 +27,10 @@ FIXED = [
  ("C19", "55ba689", "to_dict compared defaults in xobject form: String fields equal to their declared default never omitted; N-D static array fields raised ValueError (broadcast)", "corpus/C19/nd_static_array_default.json"),
  ("C19", "e2169d6", "from_dict(to_dict()) of an object with a nested hybrid object whose class renames fields silently lost those fields' values (or raised)", "corpus/C19/nested_renamed_fields_lost.json"),
  ("C20", "2ce3888", "unpickled structs with >= 2 dynamic fields raised AttributeError on first access (cached _offsets not restored); dynamic structs came back without _size", "corpus/C20/struct_two_dynamic_fields.json"),
+ ("C18", "6966b83", "assigning a hybrid object of another buffer to a reference field raised MemoryError only after the reference had been rebound to a copy (attributes no longer mirrored the buffer)", "corpus/C18/ref_across_buffers_refused.json"),
+ ("C18", "a2babea", "after assigning a hybrid object to a non-reference field the nested dressed parts of the stored copy were still the source's (two-level nesting)", "corpus/C18/two_level_nested_assign.json"),
+ ("C18", "c09fcf1", "setting a reference field (or a nested hybrid field holding references) from plain data or None left the previously assigned dressed object as the attribute value", "corpus/C18/ref_then_data.json"),
+ ("C10", "71cc20e", "Struct._update byte-copied a same-class struct that holds references: the assigned element's references pointed to unrelated bytes", "corpus/C18/nested_with_ref_assign.json"),
 ]
 OPEN = []
 out = {"comment": "Read-only at run time. 'fixed' entries suppress nothing: the example is in corpus/ and is re-run by the check, so a regression is reported as a violation. 'open' entries are attributed by feature + counterfactual (DESIGN.md section 7).",
